@@ -506,7 +506,7 @@ func (f *framer) readFrame(r io.Reader, head *frameHeader) error {
 		// need to free up the connection to be used again
 		_, err := io.CopyN(ioutil.Discard, r, int64(head.length))
 		if err != nil {
-			return fmt.Errorf("error whilst trying to discard frame with invalid length: %v", err)
+			return &frameBodyReadError{err: fmt.Errorf("error whilst trying to discard frame with invalid length: %v", err)}
 		}
 		return ErrFrameTooBig
 	}
@@ -521,7 +521,7 @@ func (f *framer) readFrame(r io.Reader, head *frameHeader) error {
 	// assume the underlying reader takes care of timeouts and retries
 	n, err := io.ReadFull(r, f.buf)
 	if err != nil {
-		return fmt.Errorf("unable to read frame body: read %d/%d bytes: %v", n, head.length, err)
+		return &frameBodyReadError{err: fmt.Errorf("unable to read frame body: read %d/%d bytes: %v", n, head.length, err)}
 	}
 
 	if head.flags&flagCompress == flagCompress {
@@ -538,6 +538,15 @@ func (f *framer) readFrame(r io.Reader, head *frameHeader) error {
 	f.header = head
 	return nil
 }
+
+// frameBodyReadError reports that the body announced by a frame header could not be
+// read (or skipped) completely: whatever follows on the connection is not at a frame
+// boundary anymore.
+type frameBodyReadError struct {
+	err error
+}
+
+func (e *frameBodyReadError) Error() string { return e.err.Error() }
 
 func (f *framer) parseFrame() (frame frame, err error) {
 	defer func() {
